@@ -363,6 +363,10 @@ def exit_status(ctx):
             r, 'min') and has(r, 'outputs')
         b = has_call(r, 'max') and has(r, 'inputs') and has_call(
             l, 'min') and has(l, 'outputs')
+        # every recorded output takes part: a missing output (strict=False
+        # makes it infinitely old) must not be filtered out of the minimum
+        if has_call(l, 'if') or has_call(r, 'if'):
+            return False
         return op == 'LtE' and a or op == 'GtE' and b
     ok = bool(rs) and all(any(newer(op, l, r) for op, l, r in
                               F.guard_compares(n_, fcc)) for n_ in rs)
